@@ -350,7 +350,8 @@ class Agent(dbus.service.Object):
                 for blk in list(ctr.block_type(BundleAgeBlock)):
                     ctr.remove_block(blk)
                 now_dtntime = self.timestamp().getfieldval('dtntime')
-                age = now_dtntime - create_dtntime
+                # the source clock may run ahead of this one
+                age = max(0, now_dtntime - create_dtntime)
                 ctr.add_block(CanonicalBlock() / BundleAgeBlock(age=age))
             else:
                 # The source has no clock, the received age is all there is
